@@ -447,6 +447,17 @@ def check_callout_rendering(rep, prog):
     apps = [ev for ev in I.events[Lr.events[0]:Lr.events[1]] if ev.kind == "append" and ev.data[0] == lst[-1][1]]
     rep.check(len(apps) == 1, "C03.R3.callouts", "exactly one JSON object appended per callout", where, Lr.node,
               "%d appends per callout" % len(apps), node=Lr.node)
+    # a callout is rendered from its own substructures only: nothing but the result list is collected across callouts
+    carried = []
+    for ev in I.events[Lr.events[0]:Lr.events[1]]:
+        if ev.kind in ("append", "extend", "dict_store", "list_setitem", "dictmut", "listmut", "dict_update") and Lr in ev.loops and \
+                isinstance(ev.data[0], Ref) and ev.data[0] != lst[-1][1]:
+            o_ = I.heap.get(ev.data[0].oid)
+            if o_ is not None and Lr not in getattr(o_, "born_loops", ()) and getattr(o_, "shared", None) is None:
+                carried.append(ev)
+    rep.check(not carried, rule, "no container other than the result list is filled across callouts", where, carried[0].node if carried else Lr.node,
+              "a list / dictionary created before the per-callout loop is filled inside it (%s): a later callout shows values of the "
+              "earlier ones" % (carried[0].kind if carried else ""), node=carried[0].node if carried else None)
 
 
 def check_registry(rep, prog):
